@@ -37,6 +37,25 @@ def corpus():
     return cs
 
 
+def _edge_with_dictionaries(rng):
+    """edge list with user-supplied label dictionaries whose indices have gaps / are not 0..n-1"""
+    c = E.gen_case("edgelist", rng)
+    rows = sorted({e[0] for e in c["X"]}); cols = sorted({e[1] for e in c["X"]})
+    def spread(labels):
+        idx, out = 0, {}
+        for l in labels:
+            idx += rng.choice([0, 1, 1, 3]) if out else rng.choice([0, 2])
+            out[l] = idx
+            idx += 1
+        return out
+    which = rng.choice(["col", "row", "both"])
+    if which in ("col", "both"):
+        c["params"]["column_label_dictionary"] = spread(cols)
+    if which in ("row", "both"):
+        c["params"]["row_label_dictionary"] = spread(rows)
+    return c
+
+
 def generate(rng, tier):
     n = 10 if tier == "quick" else 60
     slow = {"wasserstein": 3, "sinkhorn": 3, "approxwasserstein": 3, "distribution": 3, "kde": 5}
@@ -45,6 +64,8 @@ def generate(rng, tier):
         m = n if kind not in slow else (slow[kind] if tier == "quick" else slow[kind] * 5)
         for _ in range(m):
             cs.append(E.gen_case(kind, rng, tier))
+    for _ in range(n // 2):
+        cs.append(_edge_with_dictionaries(rng))
     return cs
 
 
@@ -79,6 +100,9 @@ def run_impl(case):
         return {"fit_exc": E.exc_name(e)}
     out["width"] = E.fitted_width(est, kind)
     out["nrows_fitted"] = E.fitted_rows(est, kind)
+    if kind == "edgelist":
+        # supplied label dictionaries may have gaps: the column space fixed at fit is the fitted matrix's shape
+        out["nrows_fitted"], out["width"] = int(ft.shape[0]), int(ft.shape[1])
     try:
         t = est.transform(E.to_input(kind, Xt), **kw)
         out["t"] = E.canon(t)
@@ -198,7 +222,7 @@ def _features(kind, est, case):
     if kind == "edgelist":
         rl, cl = est.row_label_dictionary_, est.column_label_dictionary_
         entries = [[int(rl[r]), int(cl[c]), str(Fraction(v))] for r, c, v in Xt if r in rl and c in cl]
-        return {"assemble": {"shape": [len(rl), len(cl)], "entries": entries}}
+        return {"assemble": {"shape": [int(est._train_matrix.shape[0]), int(est._train_matrix.shape[1])], "entries": entries}}
     return None
 
 
